@@ -22,6 +22,7 @@ pub struct G<T> {
     pub ups: Seq<UpLink<T>>,
     pub greeted: Seq<bool>,     // member i has greeted        (changes only when member i greets)
     pub completed: Seq<bool>,   // member i has completed      (changes only when member i completes)
+    pub turned: Seq<bool>,      // member i greeted after the output was over and was told to stop at once (it is not counted)
     pub arr: Seq<T>,            // every datum of every member, in arrival order
 }
 pub struct Cap { pub n: usize, pub pullable: bool }
@@ -69,7 +70,7 @@ impl CellRef_source_talkbacks {
 
 pub open spec fn cap_ok(c: Cap) -> bool { !c.pullable }
 pub open spec fn g_init<T>(c: Cap) -> G<T> {
-    G { dn: dn_init(), ups: Seq::new(c.n as nat, |j: int| up_init::<T>()), greeted: Seq::new(c.n as nat, |j: int| false), completed: Seq::new(c.n as nat, |j: int| false), arr: Seq::empty() }
+    G { dn: dn_init(), ups: Seq::new(c.n as nat, |j: int| up_init::<T>()), greeted: Seq::new(c.n as nat, |j: int| false), completed: Seq::new(c.n as nat, |j: int| false), turned: Seq::new(c.n as nat, |j: int| false), arr: Seq::empty() }
 }
 pub open spec fn none_alloc(h: Heap) -> bool { !h.alloc_source_talkbacks && !h.alloc_start_count && !h.alloc_end_count && !h.alloc_ended }
 pub open spec fn all_alloc(h: Heap) -> bool { h.alloc_source_talkbacks && h.alloc_start_count && h.alloc_end_count && h.alloc_ended }
@@ -135,14 +136,15 @@ pub proof fn lemma_count_zero(n: nat)
 //@invpart greet @C01,C08 the sink is greeted exactly when the first member has greeted, whichever member that is
 pub open spec fn inv_safe<T>(h: Heap, g: G<T>, c: Cap) -> bool {
     &&& cap_ok(c)
-    &&& g.ups.len() == c.n && g.greeted.len() == c.n && g.completed.len() == c.n && h.source_talkbacks@.len() == c.n
+    &&& g.ups.len() == c.n && g.greeted.len() == c.n && g.completed.len() == c.n && g.turned.len() == c.n && h.source_talkbacks@.len() == c.n
     &&& (forall|i: int| 0 <= i < c.n && g.ups[i].phase == Up::Live ==> (#[trigger] h.source_talkbacks@[i]) == Some(UpTb { i: i as usize }))
     &&& (forall|i: int| 0 <= i < c.n && (#[trigger] h.source_talkbacks@[i]) is Some ==> h.source_talkbacks@[i] == Some(UpTb { i: i as usize }))
 }
 pub open spec fn inv_cnt<T>(h: Heap, g: G<T>, c: Cap) -> bool {
     &&& h.start_count == count_true(g.greeted)
     &&& h.end_count == count_true(g.completed)
-    &&& (forall|i: int| #![trigger g.greeted[i]] #![trigger g.ups[i]] 0 <= i < c.n ==> g.greeted[i] == up_greeted(g.ups[i].phase))
+    &&& (forall|i: int| #![trigger g.greeted[i]] #![trigger g.ups[i]] 0 <= i < c.n ==> g.greeted[i] == (up_greeted(g.ups[i].phase) && !g.turned[i]))
+    &&& (forall|i: int| #![trigger g.turned[i]] #![trigger g.ups[i]] 0 <= i < c.n && g.turned[i] ==> g.ups[i].phase == Up::EndedByUs)
     &&& (forall|i: int| #![trigger g.completed[i]] #![trigger g.ups[i]] 0 <= i < c.n ==> g.completed[i] == (g.ups[i].phase == Up::EndedBySelf))
     // consequences of the counts that the handlers rely on (re-established from the count lemmas at handler entry)
     &&& h.start_count <= c.n && h.end_count <= c.n
@@ -152,6 +154,7 @@ pub open spec fn inv_cnt<T>(h: Heap, g: G<T>, c: Cap) -> bool {
 }
 pub open spec fn inv_greet<T>(h: Heap, g: G<T>, c: Cap) -> bool {
     &&& (g.dn.phase == Dn::NotGreeted <==> h.start_count == 0)
+    &&& (h.ended ==> h.start_count >= 1)
     &&& (g.dn.phase == Dn::NotGreeted ==> g.dn.data.len() == 0 && g.arr.len() == 0)
     &&& (forall|i: int| 0 <= i < c.n && (#[trigger] h.source_talkbacks@[i]) is Some ==> up_greeted(g.ups[i].phase))
 }
@@ -255,12 +258,13 @@ pub fn merge__source_talkback<T>(h: &mut Heap, g: &mut Ghost<G<T>>, c: &Cap, i: 
     proof {
         lemma_count_bounds(g@.greeted); lemma_count_bounds(g@.completed);
         if message is Data { g@ = G { arr: g@.arr.push(message->Data_0), ..g@ }; }
-        if message is Handshake { lemma_count_set(g@.greeted, i as int); g@ = G { greeted: g@.greeted.update(i as int, true), ..g@ }; }
+        if message is Handshake && !h.ended { lemma_count_set(g@.greeted, i as int); g@ = G { greeted: g@.greeted.update(i as int, true), ..g@ }; }
+        if message is Handshake && h.ended { g@ = G { turned: g@.turned.update(i as int, true), ..g@ }; }
         if message is Terminate { lemma_count_set(g@.completed, i as int); g@ = G { completed: g@.completed.update(i as int, true), ..g@ }; }
         g@ = set_up(g@, i as int, up_recv(g@.ups[i as int], message));
         lemma_count_bounds(g@.greeted); lemma_count_bounds(g@.completed);
         assert(forall|j: int| #![trigger g@.completed[j]] #![trigger g@.ups[j]] 0 <= j < c.n ==> g@.completed[j] == (g@.ups[j].phase == Up::EndedBySelf));
-        assert(forall|j: int| #![trigger g@.greeted[j]] #![trigger g@.ups[j]] 0 <= j < c.n ==> g@.greeted[j] == up_greeted(g@.ups[j].phase));
+        assert(forall|j: int| #![trigger g@.greeted[j]] #![trigger g@.ups[j]] 0 <= j < c.n ==> g@.greeted[j] == (up_greeted(g@.ups[j].phase) && !g@.turned[j]));
     }
     let ghost g1 = g@;
     BODY!("source_talkback");
